@@ -32,7 +32,10 @@ def plan(tier):
   if tier == "quick":
     return [
         (0, 3, product(VERSIONS, DIALECTS, (1,), ALL) +
-               product((None,), ("standard",), (0, 1), ("carry",))),
+               product((None,), ("standard",), (0, 1), ("carry",)) +
+               # level 0 skips the VN / content cross-check only: documents
+               # without a VN header are judged at level 0 like everywhere
+               product(VERSIONS, ("standard",), (0,), ("list",))),
         (4, 4, product(VERSIONS, ("standard",), (1,), ("list",)) +
                product((None,), ("standard",), (1,), ("inc", "objs")) +
                product((None,), ("rgfa",), (1,), ("list",))),
@@ -42,7 +45,8 @@ def plan(tier):
              product(VERSIONS, DIALECTS, (2, 3), ("list",)) +
              # (level >= 1: level 0 is documented to skip the cross-check
              # between a VN header and the content)
-             product((None,), ("standard",), (0, 1, 2, 3), ("carry",))),
+             product((None,), ("standard",), (0, 1, 2, 3), ("carry",)) +
+             product(VERSIONS, ("standard",), (0,), ("list", "inc"))),
       (5, 5, product((None,), ("standard",), (1,), ("list",))),
   ]
 
@@ -280,6 +284,9 @@ def work(item):
   res["hist"] = collections.Counter()
   found = []
   for cfg in cfgs:
+    if cfg[2] == 0 and cfg[3] != "carry" and \
+       any(k in ("H1", "H2", "H3") for k in kinds):
+      continue      # level 0 is documented to skip the VN / content check
     exp = run_config(kinds, cfg, scratch, res, found)
     if len(kinds) in (2, 3) and len(res["samples"]) < 1 and \
        cfg[3] == "list" and rv.content_versions(kinds) != rv.BOTH:
